@@ -856,6 +856,13 @@ func (tic *TermInCommittee) HandleNewView(nvm *interfaces.NewViewMessage) {
 		// the current view fired meanwhile
 		ctx, err := tic.State.Contexts.For(tic.State.HeightView())
 		if err != nil {
+			// the main loop has already timed the current view out and the trigger is on its way to this worker: act on
+			// it now (enter the next view, arm its timer) and handle the NEW_VIEW from there instead of dropping it
+			current := tic.State.HeightView()
+			tic.moveToNextLeaderByElection(current.Height(), current.View(), nil)
+			ctx, err = tic.State.Contexts.For(tic.State.HeightView())
+		}
+		if err != nil {
 			tic.logger.Info("LHFLOW LHMSG RECEIVED NEW_VIEW IGNORE - %e", err)
 			return
 		}
@@ -866,11 +873,8 @@ func (tic *TermInCommittee) HandleNewView(nvm *interfaces.NewViewMessage) {
 			tic.logger.Info("LHFLOW LHMSG RECEIVED NEW_VIEW IGNORE - Proposed block failed ValidateBlockProposal: %s", err)
 			return
 		}
-
-		if ctx.Err() != nil { // TODO required?
-			tic.logger.Info("LHFLOW LHMSG RECEIVED NEW_VIEW IGNORE - ValidateBlockProposal - %s", ctx.Err())
-			return
-		}
+		// a proposal the consumer has approved is adopted even if the current view's context was cancelled meanwhile
+		// (its timeout leads to the very view this NEW_VIEW opens)
 	}
 
 	if err := tic.validatePreprepare(ppm); err == nil {
